@@ -731,7 +731,10 @@ int tls_client_key_shares_from_bytes(SM2_Z256_POINT *sm2_point, const uint8_t **
 
 		switch (group) {
 		case TLS_curve_sm2p256v1:
-			sm2_z256_point_from_octets(sm2_point, key_exch, key_exch_len);
+			if (sm2_z256_point_from_octets(sm2_point, key_exch, key_exch_len) != 1) {
+				error_print();
+				return -1;
+			}
 			break;
 		default:
 			error_print();
